@@ -32,6 +32,7 @@ Scalars == {QI(2), QI(0 - 3), <<1, 2>>}
 \* ---------------------------------------------------------------------------
 \* case sets per family.  A case: [op, shapes, a (argument record), pat]
 BinCases == {C(op, <<s1, s2>>, NoArg, pt) : op \in {"add", "sub", "mul", "div"}, s1 \in Shapes, s2 \in Shapes, pt \in Pats}
+            \cup {C(op, <<s1, s2>>, NoArg, "Z") : op \in {"add", "sub", "mul"}, s1 \in Shapes, s2 \in Shapes}      \* exact zeros among the values
             \* the same tensor used twice by one operation: both operands are one object (pattern "AA": X[2] = X[1])
             \cup {C(op, <<s1, s1>>, [alias |-> TRUE], "AA") : op \in {"add", "sub", "mul", "div"}, s1 \in Shapes}
 
@@ -39,6 +40,10 @@ ScalarCases ==
   {C(op, <<s>>, [c |-> c], "A") : op \in {"addc", "raddc", "subc", "rsubc", "mulc", "rmulc", "divc", "rdivc"}, s \in Shapes, c \in Scalars}
   \cup {C(op, <<s>>, NoArg, "A") : op \in {"neg", "clone"}, s \in Shapes}
   \cup {C("powi", <<s>>, [n |-> n], "A") : s \in Shapes, n \in (0 - 2)..3}
+  \* operand values that include exact zeros (and repeated values), where the function is defined there
+  \cup {C("powi", <<s>>, [n |-> n], "Z") : s \in Shapes, n \in 0..3}
+  \cup {C(op, <<s>>, [c |-> c], "Z") : op \in {"mulc", "rsubc", "divc"}, s \in Shapes, c \in {QI(2)}}
+  \cup {C(op, <<s>>, NoArg, "Z") : op \in {"neg", "clone"}, s \in Shapes}
 
 RtermCases ==
   {C(op, <<s>>, NoArg, "S") : op \in {"exp"}, s \in Shapes}
@@ -124,7 +129,7 @@ ItemLists ==
 GetitemCases == {C("getitem", <<s>>, [items |-> its], "A") : s \in ShapesFrom(1, MaxRank, Sizes \cup {3}), its \in ItemLists}
 
 \* larger ranks and sizes (rank 3..5, sizes up to 5), a sparse set of shapes with every dim argument
-BigShapes == {<<2, 3, 4>>, <<3, 1, 4, 2>>, <<2, 1, 3, 2, 2>>, <<5, 4>>}
+BigShapes == {<<2, 3, 4>>, <<3, 1, 4, 2>>, <<2, 1, 3, 2, 2>>, <<5, 4>>, <<7, 6>>}
 DimsOf(sh) == (0 - Len(sh))..(Len(sh) - 1)
 Suffixes(sh) == {SubSeq(sh, i, Len(sh)) : i \in 1..(Len(sh) + 1)} \cup {[d \in 1..Len(sh) |-> IF d % 2 = 1 THEN 1 ELSE sh[d]]}
 BigCases ==
@@ -142,6 +147,10 @@ BigCases ==
     \cup {C("reshape", <<sh>>, [shape |-> t], "A") : t \in {<<0 - 1>>, <<2, 0 - 1>>, <<0 - 1, 2, 2>>, <<4, 0 - 1>>, <<3, 0 - 1>>}}
     \cup {C("stack", <<sh, sh>>, [dim |-> d], "A") : d \in (0 - Len(sh) - 1)..Len(sh)}
     \cup {C("concat", <<sh, sh, sh>>, [dim |-> d], "A") : d \in DimsOf(sh)}
+    \* four and five operands, of different sizes along the joined dim
+    \cup {C("concat", <<sh, [sh EXCEPT ![1] = 1], sh, [sh EXCEPT ![1] = 2], sh>>, [dim |-> d], "A") : d \in {0, 0 - Len(sh)}}
+    \cup {C("concat", <<sh, [sh EXCEPT ![Len(sh)] = 3], [sh EXCEPT ![Len(sh)] = 1], sh>>, [dim |-> d], "A") : d \in {Len(sh) - 1, 0 - 1}}
+    \cup {C("stack", <<sh, sh, sh, sh, sh>>, [dim |-> d], "A") : d \in {0, 1, 0 - 1}}
     \cup {C("unbind", <<sh>>, [dim |-> d, t |-> 1], "A") : d \in DimsOf(sh)}
     \cup {C("getitem", <<sh>>, [items |-> its], "A") :
             its \in {<<Ell, [t |-> "int", i |-> 0 - 1]>>, <<[t |-> "int", i |-> 1], Ell, [t |-> "slice", a |-> <<>>, b |-> <<>>, st |-> 0 - 1]>>,
